@@ -453,6 +453,17 @@ class PairEngine:
 
     def fail(self, rule, ctx, site, nid, msg, detail=None):
         f = ctx.fn
+        # a companion may hide in a mutation form the vocabulary does not model: then the pairing cannot be decided
+        unknown = list(ctx.ev.unknown)
+        for _, g in self.m.callees(f):
+            if g.record in GRAPH_CLASSES and not g.is_const:
+                if any(k.endswith('.unknown') for k in summary_of(self.m, g).kinds):
+                    unknown.append((None, 'callee %s uses an unmodelled mutation' % g.display()))
+        if unknown:
+            self.R(rule).obligations += 1
+            self.R(rule).broken('%s: pairing of %s in %s cannot be decided because of an unmodelled mutation (%s)' % (
+                rule, site, f.display(), unknown[0][1]))
+            return
         self.R(rule).fail(Finding(rule, f.display(), site, f.nloc(nid) if nid is not None else f.where(), msg, detail))
 
     def ok(self, rule, ctx, sample=None):
